@@ -4,6 +4,7 @@
 cd "$(dirname "$0")/.." || exit 2
 R=${MUTREPO:-/repo}
 P="$1"; shift
+case "$P" in /*) ;; *) P="$PWD/$P";; esac
 [ -f "$P" ] || { echo "no such patch $P" >&2; exit 2; }
 if [ -n "$(git -C $R status --porcelain --untracked-files=no)" ]; then echo "$R has uncommitted changes" >&2; exit 2; fi
 if git -C $R apply --check "$P" 2>/dev/null; then
